@@ -9,6 +9,7 @@ from __future__ import annotations
 
 import gc
 import json
+import os
 import random
 import sys
 
@@ -82,10 +83,12 @@ class C01(vlib.Driver):
                 ops.append(["learn", i, rng.randrange(1000)])
             return ops
 
-        def add(algo, family, share, netcfg, L, seed, nag=2):
+        def add(algo, family, share, netcfg, L, seed, nag=2, wrapper=False):
             ops = history(nag, L, rng)
-            cases.append({"algo": algo, "family": family, "share": share, "netcfg": netcfg, "seed": seed, "pop": nag,
-                          "ops": ops})
+            c = {"algo": algo, "family": family, "share": share, "netcfg": netcfg, "seed": seed, "pop": nag, "ops": ops}
+            if wrapper:
+                c["wrapper"] = True
+            cases.append(c)
 
         # boundary histories, every algorithm: learn; clone; train both on the same batch; train clone; look back
         for algo in algos:
@@ -98,6 +101,8 @@ class C01(vlib.Driver):
                                       ["mutate", 2, "param", 6], ["score", 0, 3], ["score", 1, 9], ["score", 2, 4],
                                       ["score", 3, 1], ["select", [1], True], ["learn", 0, 1], ["learn", 1, 2],
                                       ["learn", 2, 3]]})
+        if os.environ.get("VERIF_C01_ONLY") == "boundary":   # developer shortcut for the mutation self-test (never registered)
+            return cases
         if tier == "quick":
             for algo in algos:
                 add(algo, "vector", False, rng.choice(["partial", "full", "none"]), 6, rng.randrange(100))
@@ -106,7 +111,13 @@ class C01(vlib.Driver):
                     add(algo, fam, algo != "DQN" and rng.random() < 0.5, "partial", 5, rng.randrange(100))
             for algo in evo.SHARE_CAPABLE:
                 add(algo, "vector", True, "partial", 6, rng.randrange(100))
+            for algo in ("DQN", "DDPG"):       # AgentWrapper.clone (RSNorm supports the off-policy single-agent algorithms)
+                add(algo, "vector", False, "partial", 6, rng.randrange(100), wrapper=True)
         else:
+            for algo in ("DQN", "RainbowDQN", "CQN", "DDPG", "TD3"):
+                for rep in range(3):
+                    add(algo, "vector", False, rng.choice(["partial", "none"]), rng.choice([6, 9]),   # RSNorm: Box observations
+                        rng.randrange(1000), nag=2, wrapper=True)
             for algo in algos:
                 for fam in evo.FAMILIES:
                     for share in ([False, True] if algo in evo.SHARE_CAPABLE else [False]):
@@ -124,6 +135,9 @@ class C01(vlib.Driver):
         shared_cfg = evo.net_config_for(case["netcfg"], case["family"])
         hp = evo.hp_config_for(case["algo"])
         pop = [evo.build_agent(dict(spec, index=i, _hp_obj=hp), shared_cfg=shared_cfg) for i in range(case["pop"])]
+        if case.get("wrapper"):      # AgentWrapper.clone: observation-normalising wrapper around each member
+            from agilerl.wrappers.agent import RSNorm
+            pop = [RSNorm(a) for a in pop]
         reg = evo.registry_plus(pop[0])
         states = [self._snap(pop)]
         recs = []
@@ -210,10 +224,12 @@ class C01(vlib.Driver):
                     # NB activation_mutation touches the networks and re-creates the optimizers even when it ends up
                     # with the label "None" (no activation to mutate); the skip for policy-gradient algorithms is in the model
                     mk = "MAct"
+                elif kind == "arch":
+                    # the fall-back "no mutation methods" sets the label to the string "None" and touches nothing; a
+                    # sampled method that hits a bound still replaces the networks by their offspring (label may be None)
+                    mk = "MNone" if label == "None" else "MArch"
                 elif kind == "none" or label in (None, "None"):
                     mk = "MNone"
-                elif kind == "arch":
-                    mk = "MArch"
                 elif kind == "param":
                     mk = "MParam"
                 else:
@@ -239,7 +255,8 @@ class C01(vlib.Driver):
                 shared_of[s] = g["eval"]
 
         def sig(clause, cls):
-            return f"{clause}:{algo}{'+share' if case.get('share') else ''}:{cls}"
+            fam = "" if case.get("family", "vector") == "vector" else "@" + case["family"]
+            return f"{clause}{fam}:{algo}{'+share' if case.get('share') else ''}:{cls}"
 
         def shared_ptrs(st, what):
             seen = {}
@@ -355,6 +372,9 @@ class C01(vlib.Driver):
             if ps["nets"][n]["arch"] != cs["nets"][n]["arch"]:
                 out.append(Violation("faithful", sig("faithful", "arch"), f"{what}: architecture of {n} differs: {ps['nets'][n]['arch']} vs {cs['nets'][n]['arch']}"))
                 return
+        if ps.get("scalars") != cs.get("scalars"):
+            d = {k: (v, cs["scalars"].get(k)) for k, v in ps["scalars"].items() if cs["scalars"].get(k) != v}
+            out.append(Violation("faithful", sig("faithful", "scalar"), f"{what}: scalar attributes differ (parent, clone): {d}"))
         if ps["hps"] != cs["hps"]:
             out.append(Violation("faithful", sig("faithful", "hp"), f"{what}: hyper-parameters differ {ps['hps']} vs {cs['hps']}"))
         for o in ps["opts"]:
@@ -370,8 +390,33 @@ class C01(vlib.Driver):
             out.append(Violation("faithful", sig("faithful", "index"), f"{what}: clone index {cs['index']} expected {want}"))
 
     # ------------------------------------------------------------------ evidence helpers
+    def extra_static(self):
+        """fail closed if the slot extraction does not cover what the algorithms expose: every evolvable network /
+        optimizer attribute must be named by the registry (the slots are enumerated from the registry)"""
+        out = []
+        self.notes = []
+        for algo in evo.ALGOS:
+            for share in ([False, True] if algo in evo.SHARE_CAPABLE else [False]):
+                a = evo.build_agent({"algo": algo, "family": "vector", "share": share, "netcfg": "partial", "seed": 0, "index": 0})
+                r = evo.registry_plus(a)
+                self.notes.append("registry {}{}: groups={} optimizers={} hooks={} share_others={} hps={}".format(
+                    algo, "+share" if share else "", [(g["eval"], g["shared"], g["policy"]) for g in r["groups"]],
+                    [(o["name"], o["nets"], o["lr"]) for o in r["opts"]], r["hooks"], r["share_others"], r["hps"]))
+                nets = set(a.evolvable_attributes(networks_only=True))
+                alle = set(a.evolvable_attributes())
+                reg_nets = set(evo.net_names(a))
+                reg_opts = {o.name for o in a.registry.optimizers}
+                if nets != reg_nets or (alle - nets) != reg_opts:
+                    out.append(Violation("coverage", f"coverage:{algo}", f"{algo}: evolvable attributes {sorted(alle)} are not exactly the "
+                                         f"registry's networks {sorted(reg_nets)} + optimizers {sorted(reg_opts)}; slots would be missed",
+                                         None, None, found_input=False))
+                for h in a.registry.hooks:
+                    if h not in ("init_hook", "share_encoder_parameters", "init_params"):
+                        out.append(Violation("coverage", f"coverage:hook:{algo}", f"{algo}: mutation hook {h!r} has no model", None, None, found_input=False))
+        return out
+
     def key(self, case):
-        return json.dumps([case["algo"], case["family"], case["share"], case["netcfg"], [o[0] if o[0] != "mutate" else o[0] + ":" + o[2] for o in case["ops"]]])
+        return json.dumps([case["algo"], case["family"], case["share"], case["netcfg"], bool(case.get("wrapper")), [o[0] if o[0] != "mutate" else o[0] + ":" + o[2] for o in case["ops"]]])
 
     def nontrivial(self, case, obs):
         ops = case["ops"]
@@ -386,7 +431,7 @@ class C01(vlib.Driver):
         return False
 
     def classify(self, case, obs):
-        labs = [f"algo={case['algo']}", f"family={case['family']}", f"share={case['share']}", f"netcfg={case['netcfg']}",
+        labs = [f"algo={case['algo']}", f"family={case['family']}", f"wrapper={bool(case.get('wrapper'))}", f"share={case['share']}", f"netcfg={case['netcfg']}",
                 f"len={min(len(case['ops']) // 4 * 4, 16)}+"]
         for o in case["ops"]:
             labs.append("op=" + (o[0] if o[0] != "mutate" else "mutate:" + o[2]))
